@@ -202,6 +202,54 @@ def run(ctx):
         ctx.violation(f"{m['scorer']}: malformed cuts argument of kind {m['arg_kind']} -> implementation {m['impl']}, "
                       f"model disagrees", m, {"scorer": m["scorer"], "what": "malformed", "arg": m["arg_kind"]})
     narrow_dtype_stream(ctx)
+    refit_stream(ctx)
+
+
+def refit_stream(ctx):
+    """"Fitted data" is the LAST fitted series: a scorer fitted on one series and then on another of another length -- directly, or as the wrapped cost of a second wrapper --
+    must accept exactly the cuts that are valid for the second series (positions up to ITS length) and score them as a fresh scorer fitted on it does; positions past
+    its end stay rejected."""
+    rng = np.random.default_rng(ctx.seed + 1314)
+    for rep in range(ctx.n(2, 8)):
+        p = int(rng.integers(1, 3))
+        n1, n2 = (int(rng.integers(8, 14)), int(rng.integers(18, 30))) if rep % 2 == 0 else (int(rng.integers(18, 30)), int(rng.integers(8, 14)))
+        X1, X2 = rng.normal(size=(n1, p)) + 3.0, rng.normal(size=(n2, p)) * 2.0
+        for (name, sc, kind, _), (_, fresh, _, _) in zip(scorers(p), scorers(p)):
+            k = 4 if kind[0] == "Local" else kind[1]
+            ms = kind[1] if kind[0] == "Local" else kind[2]
+            width = 2 * ms + (k - 2) * ms
+            if n2 < width + 2 or n1 < width + 2:
+                continue
+            def mk_cut(e):                                    # a valid cut that reaches the END of a series of e rows
+                s0 = max(0, e - width - 1)
+                return [s0, e] if k == 2 else ([s0, s0 + ms, e] if k == 3 else [s0, s0 + ms, e - ms, e])
+            cut = mk_cut(n2)
+            inp = {"scorer": name, "n_first": n1, "n_second": n2, "p": p, "cut": cut, "X1": X1.tolist(), "X2": X2.tolist()}
+            ctx.case({"refit": name, "rep": rep}, nontrivial=True)
+            ctx.count("refit", name.split("(")[0])
+            try:
+                sc.fit(X1)
+                sc.evaluate(np.asarray([mk_cut(n1)]))
+                sc.fit(X2)
+                got = np.asarray(sc.evaluate(np.asarray([cut])), dtype=float)
+                want = np.asarray(fresh.fit(X2).evaluate(np.asarray([cut])), dtype=float)
+            except Exception as ex:
+                ctx.violation(f"{name}: fitted on {n1} rows and then on {n2} rows, evaluate({cut}) -- valid for the second series -- raised {type(ex).__name__}: {str(ex)[:100]}", inp,
+                              {"what": "refit-exception", "scorer": name.split("(")[0]})
+                continue
+            if got.shape != want.shape or not np.allclose(got, want, rtol=1e-9, atol=1e-9, equal_nan=True):
+                ctx.violation(f"{name}: fitted on {n1} rows and then on {n2} rows, evaluate({cut}) = {got.tolist()[0][:3]}; a fresh scorer fitted on the second series gives "
+                              f"{want.tolist()[0][:3]}", inp, {"what": "refit-value", "scorer": name.split("(")[0]})
+                continue
+            past = [c_ + (n2 + 1 - cut[-1]) if i_ == len(cut) - 1 else c_ for i_, c_ in enumerate(cut)]
+            try:
+                sc.evaluate(np.asarray([past]))
+                ctx.violation(f"{name}: fitted on {n1} rows and then on {n2} rows, evaluate({past}) -- one position past the end of the second series -- was accepted", inp,
+                              {"what": "refit-accepts-out-of-range", "scorer": name.split("(")[0]})
+            except ValueError:
+                pass
+            except Exception as ex:
+                ctx.violation(f"{name}: evaluate({past}) past the end raised {type(ex).__name__} instead of ValueError", inp, {"what": "refit-exception-class", "scorer": name.split("(")[0]})
 
 
 def narrow_dtype_stream(ctx):
